@@ -41,6 +41,13 @@ func main() {
 		os.Exit(2)
 	}
 	pool := gjs.NewPool(c.Workers)
+	if rd := os.Getenv("VERIF_REPLAY"); rd != "" && os.Getenv("VERIF_REPLAY_NATIVE") == "" {
+		if rc := genericReplay(id, rd, pool); rc >= 0 {
+			pool.Close()
+			c.Close()
+			os.Exit(rc)
+		}
+	}
 	code := 2
 	func() {
 		defer func() {
